@@ -22,7 +22,11 @@ A row is a function from chemical identity (CAS, a `Nat`) to the flow, so that
 rows of different property packages are comparable; a property package is the
 list of its CAS ids.
 
-The model is written to the behaviour *with the fixes of fixes_proposed/C13-1 … C13-8*.
+The model is written to the behaviour *with the fixes of fixes_proposed/C13-1 … C13-13*
+(C13-13: `unlink` also takes a private copy of the characterization-factor dict).
+A history ends at the first rejected call (`World.run` stops at `.err`): partial effects of a rejected
+call are not modelled.  The cache of mass / volume views (`_data_cache`) and `equations` are not modelled
+(oracle only).
 -/
 namespace ThermoVerif.Links
 
@@ -64,7 +68,7 @@ abbrev Row := Nat → Rat
 def Row.zero : Row := fun _ => 0
 
 inductive Err where
-  | undefinedChemical | undefinedPhase | linkClass | badStream | valueError
+  | undefinedChemical | undefinedPhase | linkClass | badStream | valueError | zeroDivision
   deriving Repr, DecidableEq, Inhabited
 
 def Err.toString : Err → String
@@ -73,6 +77,7 @@ def Err.toString : Err → String
   | .linkClass => "LinkClass"
   | .badStream => "BadStream"
   | .valueError => "ValueError"
+  | .zeroDivision => "ZeroDivisionError"
 
 /-- An indexer object. -/
 inductive Imol where
@@ -437,12 +442,14 @@ def World.link (w : World) (t s : Nat) (flow phase tp : Bool) : Res World :=
     .ok (w1.setImol T.imol (.mat ps (if flow then sa else ta)))
   | _, _ => .err .linkClass
 
-/-- `stream.unlink()` -/
+/-- `stream.unlink()`: a new indexer (rows / array / phase container copied), a new thermal condition and a
+new characterization-factor dict, each with the old contents -/
 def World.unlink (w : World) (s : Nat) : World :=
   let S := w.strs s
   let (w1, im) := w.copyImol S.imol
   let (w2, tc) := w1.newTc (w1.tcs S.tc)
-  w2.setStr s { S with imol := im, tc := tc }
+  let (w3, cf) := w2.newCf (w2.cfs S.cf)
+  w3.setStr s { S with imol := im, tc := tc, cf := cf }
 
 /-! ## Construction and pickling -/
 
@@ -478,15 +485,24 @@ structure Args where
 def Args.given (a : Args) : Rat :=
   (a.flows.map fun f => (a.pkg.map fun c => rowOf f c).foldl (· + ·) 0).foldl (· + ·) 0
 
+/-- The constructor divides by the sum of the given values: `total_flow=t` with `t ≠ 0`, and for a `Stream`
+with `units=` also `t = 0` (`Stream.__init__` tests `total_flow is not None` there, `MultiStream.__init__`
+tests `if total_flow`). -/
+def Args.rescales (a : Args) : Bool :=
+  match a.total with
+  | some t => t != 0 || (a.units.isSome && !a.multi)
+  | none => false
+
 /-- The molar flow the constructor stores for chemical `c` of the `k`-th phase.
-Without `units` the values are kmol/hr, rescaled to `total_flow` when that is given (and not 0).
+Without `units` the values are kmol/hr, rescaled to `total_flow` when that is given (and not 0;
+see `Args.rescales` for `total_flow=0` with units).
 With `units` the values (first rescaled so that they sum to `total_flow`, in these units) are converted:
 divided by the unit's factor and, for a mass unit, by the molecular weight.
 (For a `MultiStream` this is the behaviour with fix C13-12: `total_flow` is in the given units, as for `Stream`.) -/
 def Args.row (a : Args) (k : Nat) : Row := fun c =>
   let v := rowOf (a.flows.getD k []) c
   let scaled := match a.total with
-    | some t => if t = 0 ∧ a.units.isNone then v else v * (t / a.given)
+    | some t => if a.rescales then v * (t / a.given) else v
     | none => v
   match a.units with
   | none => scaled
@@ -499,6 +515,7 @@ def Args.flowsOk (a : Args) : Bool := a.flows.all fun f => f.all fun (c, _) => a
 optional `units=` and `total_flow=`). -/
 def World.ctor (w : World) (a : Args) : Except Err (World × Nat) :=
   if !a.flowsOk then .error .undefinedChemical else
+  if a.rescales && a.given == 0 then .error .zeroDivision else
   let (w1, cf) := w.newCf a.cf
   let (w2, tc) := w1.newTc (a.T, a.P)
   if a.multi then
